@@ -35,6 +35,13 @@ func rootedIn(v ssa.Value, name string, depth int) bool {
 			v = x.X
 		case *ssa.ChangeType:
 			v = x.X
+		case *ssa.Alloc:
+			// a local copy taken once (w := msg.Witnesses[0]) stands for what was copied
+			st := ir.SingleStore(x)
+			if st == nil {
+				return false
+			}
+			v = st
 		default:
 			return false
 		}
@@ -176,13 +183,16 @@ func checkNeoFamily(c *core.Ctx, prop string) {
 		}
 		// m ≡ N − ⌊(N−1)/3⌋ over N = len(pubKeys)
 		keys := cms.Common().Args[1]
+		// the key list may be what a same-package helper builds from the registered strings
+		keysV, releaseKeys := valueVia(keys)
+		defer releaseKeys()
 		lenKeys := eng.IsLenOf(func(v ssa.Value) bool { return v == keys || ir.Strip(v) == ir.Strip(keys) })
 		e, err := eng.ExtractExpr(cms.Common().Args[0], func(v ssa.Value) bool {
 			if lenKeys(v) {
 				return true
 			}
 			// keys = make([]T, L, …): L is its length
-			ms, isMS := ir.Strip(keys).(*ssa.MakeSlice)
+			ms, isMS := ir.Strip(keysV).(*ssa.MakeSlice)
 			if !isMS {
 				return false
 			}
@@ -204,7 +214,7 @@ func checkNeoFamily(c *core.Ctx, prop string) {
 		}
 		// pubKeys derive from the registered state validators
 		okKeys := false
-		if ms, isMS := ir.Strip(keys).(*ssa.MakeSlice); isMS {
+		if ms, isMS := ir.Strip(keysV).(*ssa.MakeSlice); isMS {
 			// length = len(DeserializeStringArray(GetCurrentStateValidator()))
 			if ln, isCall := ir.Strip(ms.Len).(*ssa.Call); isCall {
 				if dsa, _ := ir.CallOf(ln.Common().Args[0]); dsa != nil && ir.CalleeObj(dsa) != nil && ir.CalleeObj(dsa).Name() == "DeserializeStringArray" {
